@@ -41,8 +41,11 @@ def run(sc, tier, replay):
     thorough = tier == "thorough"
     binary = vlib.go_build(sc, "./cmd/fed", "fed")
     off = ["nodirid", "nofragdirs"]
-    strata = {"core": (off + ["oddids", "richargs"], 0.4), "skeleton": (off + ["skeleton"], 0.2), "abstract": (off + ["abstract"], 0.2),
-              "rootnode": (off + ["rootnode"], 0.2)}
+    strata = {"core": (off + ["oddids", "richargs"], 0.3), "skeleton": (off + ["skeleton"], 0.3), "abstract": (off + ["abstract"], 0.2),
+              "rootnode": (off + ["rootnode"], 0.2),
+              # stitched lists nested two deep, every level owned by another service (spec: same contract; the generator's
+              # chain worlds): with services that do not know every entity both levels are left with helper-only objects
+              "chain": (["chain"], 0.12)}
     total_worlds, ops, repeats = (1400, 12, 25) if thorough else (280, 10, 6)
     stats = {}
     sample = None
@@ -88,7 +91,7 @@ def run(sc, tier, replay):
     for name, (feats, share) in strata.items():
         worlds = max(1, int(total_worlds * share / nsh))
         outs = fedlib.gen_traces(sc, binary, nsh, worlds, ops, ",".join(feats), cfgs="default,cached",
-                                 extra=["-mode", "repeat", "-repeats", str(repeats)], seed_base=vlib.seed() * 1000 + {"core": 0, "skeleton": 250, "rootnode": 750}.get(name, 500))
+                                 extra=["-mode", "repeat", "-repeats", str(repeats)], seed_base=vlib.seed() * 1000 + {"core": 0, "skeleton": 250, "rootnode": 750, "chain": 850}.get(name, 500))
         handle(name, outs)
 
     # ---- completion orders: spec/ExecMerge.tla.  Design level: merging in completion order is order-independent with the
